@@ -68,6 +68,7 @@ type Exec struct {
 	globalObj     map[*ssa.Global]int
 	configVal     *VPtr
 	batchCounter  int
+	recorded      []recordedCall
 	txProps       []string
 	assertProps   []string
 }
@@ -479,7 +480,7 @@ func (x *Exec) doReturn(st *State, fr *Frame, res []Value) {
 	if len(st.frames) == 1 {
 		x.returns++
 		if fr.onReturn != nil {
-			fr.onReturn(st, res)
+			fr.onReturn(st, fr, res)
 		}
 		st.frames = nil
 		return
@@ -487,7 +488,7 @@ func (x *Exec) doReturn(st *State, fr *Frame, res []Value) {
 	st.frames = st.frames[:len(st.frames)-1]
 	caller := st.top()
 	if fr.onReturn != nil {
-		fr.onReturn(st, res)
+		fr.onReturn(st, fr, res)
 		if st.dead {
 			return
 		}
